@@ -90,6 +90,23 @@ impl Executor for BashScriptExecutor {
                 return Err(ExecutionError::Skipped(0));
             }
             ExitStatus::Timeout(_) => {
+                // a testcase that has asked to skip the document, before the script
+                // ran out of time, is found in the output that was gathered so far
+                let mut skipped = None;
+                let _ = iterate_divided_output(
+                    "STDOUT",
+                    &salt,
+                    (&output.stdout).into(),
+                    |index: usize, _out: &[u8], exit_code: i32| {
+                        if skipped.is_none() && exit_code == skip_document_code {
+                            skipped = Some(index);
+                        }
+                        Ok(())
+                    },
+                );
+                if let Some(index) = skipped {
+                    return Err(ExecutionError::Skipped(index));
+                }
                 return Err(ExecutionError::Timeout(
                     ExecutionTimeout::Total,
                     vec![Output {
